@@ -43,10 +43,11 @@ CmdReason(e) ==
         ELSE IF e.res = "err" /\ e.after # e.before THEN "failed-set_navigation_node-moved" ELSE "ok")
   ELSE IF e.cls \in ReadOnlyClasses /\ e.after # e.before THEN "read-only-command-moved"
   \* (a command that reports an error and leaves the position alone has not "moved to"/"undone" anything)
-  ELSE IF e.cls = "MoveTo" /\ marks[e.idx] # NoPos /\ marks[e.idx][1] # root /\ e.after # marks[e.idx]
+  \* (C11 speaks of the marked NODE: the character offset inside a leaf is not part of the clause)
+  ELSE IF e.cls = "MoveTo" /\ marks[e.idx] # NoPos /\ marks[e.idx][1] # root /\ e.after[1] # marks[e.idx][1]
           /\ ~(e.res = "err" /\ e.after = e.before)
        THEN "moveto-did-not-return-to-marker"
-  ELSE IF e.cls = "MoveLastLocation" /\ lastFrom # NoPos /\ e.after # lastFrom /\ ~(e.res = "err" /\ e.after = e.before)
+  ELSE IF e.cls = "MoveLastLocation" /\ lastFrom # NoPos /\ e.after[1] # lastFrom[1] /\ ~(e.res = "err" /\ e.after = e.before)
        THEN "undo-did-not-return"
   ELSE "ok"
 
@@ -80,7 +81,10 @@ TNext ==
                \* only asserted between two set_mathml calls
                /\ marks' = IF e.k = "set" THEN NoMarks
                            ELSE IF e.k = "cmd" /\ e.cls = "SetPlacemarker" /\ e.res = "ok"
-                           THEN [marks EXCEPT ![e.idx] = e.after] ELSE marks
+                           THEN [marks EXCEPT ![e.idx] = e.after]
+                           \* a SetPlacemarker that reports an error may or may not have set the marker: not judged afterwards
+                           ELSE IF e.k = "cmd" /\ e.cls = "SetPlacemarker" THEN [marks EXCEPT ![e.idx] = NoPos]
+                           ELSE marks
        /\ lastFrom' = IF e.k = "cmd" /\ e.res = "ok" /\ e.cls \in MoveClasses /\ e.after[1] # e.before[1] THEN e.before
                       ELSE IF e.k = "cmd" /\ e.res = "ok" /\ e.cls \in (ReadOnlyClasses \ {"Exit", "Unknown"}) THEN lastFrom
                       ELSE NoPos
